@@ -759,3 +759,96 @@ func (e *Engine) havocFill(p Slice, n int) {
 		p.B.E[p.Off+i] = page
 	}
 }
+
+// ---- model *net.TCPConn ------------------------------------------------------------------
+//
+// verif_TCPConn(in, out) returns a *net.TCPConn whose Read comes from the harness'
+// verifReader and whose Write goes to the harness' verifSink (natively: a real
+// loopback connection pumped from/to the same objects). net.Buffers.WriteTo writes
+// the buffers one after the other.
+
+type tcpModel struct {
+	in, out Iface
+	closed  bool
+	closeW  bool
+}
+
+func (e *Engine) tcpFor(p Ptr) *tcpModel {
+	if p.B == nil {
+		panic(e.targetPanicStr("invalid memory address or nil pointer dereference"))
+	}
+	m := e.tcpConns[p.B.E[p.I].(*Backing)]
+	if m == nil {
+		panic(e.unsupported("*net.TCPConn that was not created by verif_TCPConn"))
+	}
+	return m
+}
+
+func init() {
+	verifAPI["verif_TCPConn"] = func(e *Engine, fr *frame, a []Value) Value {
+		sig := fr.fn.Signature
+		rt := mustDeref(sig.Results().At(0).Type())
+		sb := e.zero(rt).(*Backing)
+		if e.tcpConns == nil {
+			e.tcpConns = map[*Backing]*tcpModel{}
+		}
+		e.tcpConns[sb] = &tcpModel{in: Iface{T: sig.Params().At(0).Type(), V: a[0]}, out: Iface{T: sig.Params().At(1).Type(), V: a[1]}}
+		return Ptr{B: &Backing{E: []Value{sb}}}
+	}
+	verifAPI["verif_TCPSync"] = func(e *Engine, fr *frame, a []Value) Value { return nil }
+	intercepts["(*net.TCPConn).Read"] = func(e *Engine, fr *frame, a []Value) Value {
+		m := e.tcpFor(a[0].(Ptr))
+		if m.closed {
+			return Tuple{e.mkInt(0), e.mkError("use of closed network connection")}
+		}
+		r, _ := e.callMethod(fr, m.in, "Read", a[1])
+		return r
+	}
+	intercepts["(*net.TCPConn).Write"] = func(e *Engine, fr *frame, a []Value) Value {
+		m := e.tcpFor(a[0].(Ptr))
+		if m.closed || m.closeW {
+			return Tuple{e.mkInt(0), e.mkError("use of closed network connection")}
+		}
+		r, _ := e.callMethod(fr, m.out, "Write", a[1])
+		return r
+	}
+	intercepts["(*net.TCPConn).Close"] = func(e *Engine, fr *frame, a []Value) Value {
+		m := e.tcpFor(a[0].(Ptr))
+		if m.closed {
+			return e.mkError("use of closed network connection")
+		}
+		m.closed = true
+		return Iface{}
+	}
+	intercepts["(*net.TCPConn).CloseWrite"] = func(e *Engine, fr *frame, a []Value) Value {
+		m := e.tcpFor(a[0].(Ptr))
+		m.closeW = true
+		return Iface{}
+	}
+	for _, n := range []string{"SetDeadline", "SetReadDeadline", "SetWriteDeadline", "SetNoDelay", "SetKeepAlive", "SetKeepAlivePeriod", "SetLinger", "CloseRead", "SetReadBuffer", "SetWriteBuffer"} {
+		intercepts["(*net.TCPConn)."+n] = func(e *Engine, fr *frame, a []Value) Value { return Iface{} }
+	}
+	intercepts["(*net.Buffers).WriteTo"] = func(e *Engine, fr *frame, a []Value) Value {
+		p := a[0].(Ptr)
+		bufs := p.B.E[p.I].(Slice)
+		w := a[1].(Iface)
+		total := e.tb.Const(64, 0)
+		for i := 0; i < bufs.Len; i++ {
+			b := bufs.B.E[bufs.Off+i].(Slice)
+			if b.Len == 0 {
+				continue
+			}
+			r, ok := e.callMethod(fr, w, "Write", b)
+			if !ok {
+				panic(e.unsupported("Buffers.WriteTo target has no Write"))
+			}
+			tp := r.(Tuple)
+			total = e.tb.Bin(OpAdd, total, tp[0].(*Term))
+			if er := tp[1].(Iface); er.T != nil {
+				return Tuple{total, er}
+			}
+		}
+		p.B.E[p.I] = Slice{}
+		return Tuple{total, Iface{}}
+	}
+}
